@@ -569,12 +569,25 @@ func (z *BigInt) GCD(x, y, a, b *BigInt) *BigInt {
 	zi.GCD(xi, yi, ai, bi)
 	z.updateInner(zi)
 	if xi != nil {
+		// math/big negates the cofactor of a negative a, also when it is zero.
+		unsignZero(xi)
 		x.updateInner(xi)
 	}
 	if yi != nil {
+		unsignZero(yi)
 		y.updateInner(yi)
 	}
 	return z
+}
+
+// unsignZero clears the sign that a few math/big routines leave on a zero
+// magnitude. math/big treats such a value as zero in Sign but not in Cmp;
+// updateInner drops the sign of an inline value only, so a BigInt that has
+// outgrown its inline array would keep it. Zero is never negative.
+func unsignZero(x *big.Int) {
+	if x.Sign() == 0 {
+		x.SetUint64(0)
+	}
 }
 
 // GobEncode calls (big.Int).GobEncode.
@@ -590,6 +603,8 @@ func (z *BigInt) GobDecode(buf []byte) error {
 	if err := zi.GobDecode(buf); err != nil {
 		return err
 	}
+	// The encoding can carry a sign with no magnitude.
+	unsignZero(zi)
 	z.updateInner(zi)
 	return nil
 }
@@ -1037,6 +1052,8 @@ func (z *BigInt) SetMathBigInt(x *big.Int) *BigInt {
 	var tmp1 big.Int //gcassert:noescape
 	zi := z.inner(&tmp1)
 	zi.Set(x)
+	// x may be a negative zero that math/big itself produced.
+	unsignZero(zi)
 	z.updateInner(zi)
 	return z
 }
